@@ -329,6 +329,11 @@ theorem monotone_ubuntu_partial (p p' : Pkg) (v : Vuln) (v1 v1' : VerDeb.Version
 
 /-! ### alpine (go-apk-version) -/
 
+/-- go-apk-version's comparison (as the scan of the two token streams, the
+    formulation `./check` compares with the real code next to the lock-step
+    transcription) is a total preorder on **all** strings, valid or not. -/
+theorem apk_cmp_totalPre : TotalPre VerApk.compare := VerApk.compare_totalPre
+
 /-- alpine: an advisory without fixed version is reported. -/
 theorem no_fix_alpine (p : Pkg) (v : Vuln) (hF : v.fixed = []) : vulnerableAlpine p v = .ok true := by
   simp [vulnerableAlpine, hF]
@@ -587,6 +592,23 @@ theorem gen_osv_matchers_alike :
     Gen.Matchers.python.cmpOps = Gen.Matchers.ruby.cmpOps ∧ Gen.Matchers.ruby.cmpOps = Gen.Matchers.java.cmpOps ∧
     Gen.Matchers.python.vulnLits = Gen.Matchers.ruby.vulnLits ∧ Gen.Matchers.ruby.vulnLits = Gen.Matchers.java.vulnLits := by
   decide
+
+/-- alpine: if a version is reported, so is every version apk accepts that is not above it. -/
+theorem monotone_alpine (p p' : Pkg) (v : Vuln) (h : vulnerableAlpine p v = .ok true)
+    (hv : VerApk.valid p'.version = true) (hle : VerApk.compare p'.version p.version ≠ .gt) :
+    vulnerableAlpine p' v = .ok true := by
+  unfold vulnerableAlpine at h ⊢
+  by_cases hF : v.fixed = []
+  · simp [hF]
+  · by_cases hF0 : v.fixed = ['0']
+    · simp [hF0] at h
+    · simp only [hF, hF0, if_false] at h ⊢
+      by_cases h1 : VerApk.valid p.version = true
+      · by_cases h2 : VerApk.valid v.fixed = true
+        · simp only [h1, h2, hv, Bool.not_true, Bool.false_eq_true, if_false, Out.ok.injEq, decide_eq_true_eq] at h ⊢
+          exact lt_down VerApk.compare_totalPre h hle
+        · simp [h1, h2] at h
+      · simp [h1] at h
 
 /-- The hypotheses above are satisfiable: 1.0-1 is below 1.0-2. -/
 example : vulnerableAws { version := "1.0-1".toList } { fixed := "1.0-2".toList } = .ok true := by decide
